@@ -58,7 +58,11 @@ class CacheFactory(object):
         value = self.expiredCache.get(id)
         if value:
             # it's actually a weakref:
-            return value()
+            obj = value()
+            if obj is not None:
+                return obj
+            # a dead reference left over from an object that has gone;
+            # the row may have been loaded again since
         if not self.doCache:
             return None
         return self.cache.get(id)
